@@ -31,9 +31,127 @@ def ConformsTo {α} (outs : List Spec.AttrOutcome) (code : UInt8) (r : Except Er
 def Conforms {α} (code flags : UInt8) (v : Bytes) (r : Except Err α) (exact : α → Prop) : Prop :=
   ConformsTo (Spec.attrOutcomes code flags v) code r exact
 
+
+/-! ### helper lemmas about `Conforms` (they mention the definitions above, so they cannot live in
+`CoreBGP/Lemmas/Attrs.lean`, which this file imports) -/
+
+/-- value-level outcomes: the table once the flags are known to be right -/
+private def valueOutcomes (ap : Spec.Approach) (code : UInt8) (v : Bytes) : List Spec.AttrOutcome :=
+  match Spec.valueFault code v with
+  | none => [.ok]
+  | some subs => subs.map (.fail ap ·)
+
+private theorem attrOutcomes_conflict (code flags : UInt8) (v : Bytes) (o t : Bool) (ap : Spec.Approach)
+    (hr : Spec.attrRule code = some ⟨code, o, t, ap⟩)
+    (h : flagOptional flags ≠ o ∨ flagTransitive flags ≠ t) :
+    Spec.attrOutcomes code flags v = [.fail .withdraw 4] := by
+  unfold Spec.attrOutcomes
+  rw [hr]
+  simp only [flagOptional, flagTransitive] at h
+  simp only
+  rw [if_pos]
+  simp only [ne_eq, Lemmas.prop_eq_bool]
+  exact h
+
+private theorem attrOutcomes_noconflict (code flags : UInt8) (v : Bytes) (o t : Bool) (ap : Spec.Approach)
+    (hr : Spec.attrRule code = some ⟨code, o, t, ap⟩)
+    (h1 : flagOptional flags = o) (h2 : flagTransitive flags = t) :
+    Spec.attrOutcomes code flags v = valueOutcomes ap code v := by
+  unfold Spec.attrOutcomes valueOutcomes
+  rw [hr]
+  simp only [flagOptional, flagTransitive] at h1 h2
+  simp only
+  rw [if_neg]
+  · rfl
+  · simp only [ne_eq, Lemmas.prop_eq_bool, h1, h2]
+    simp
+
+private theorem conforms_flags {α} (code flags : UInt8) (v : Bytes) (o t : Bool) (ap : Spec.Approach)
+    (hr : Spec.attrRule code = some ⟨code, o, t, ap⟩) (body : Except Err α) (exact : α → Prop)
+    (hbody : flagOptional flags = o → flagTransitive flags = t →
+      ConformsTo (valueOutcomes ap code v) code body exact) :
+    Conforms code flags v
+      (match validateFlags flags code v o t with | some e => .error e | none => body) exact := by
+  by_cases h : flagOptional flags ≠ o ∨ flagTransitive flags ≠ t
+  · rw [Lemmas.validateFlags_conflict _ _ _ _ _ h]
+    unfold Conforms
+    rw [attrOutcomes_conflict code flags v o t ap hr h]
+    simp only [ConformsTo]
+    refine ⟨by simp, .withdraw, ⟨3, 4, Spec.attrErrData code v⟩, rfl, rfl, ?_⟩
+    simp
+  · have h1 : flagOptional flags = o := by
+      by_cases h1 : flagOptional flags = o
+      · exact h1
+      · exact absurd (Or.inl h1) h
+    have h2 : flagTransitive flags = t := by
+      by_cases h2 : flagTransitive flags = t
+      · exact h2
+      · exact absurd (Or.inr h2) h
+    rw [Lemmas.validateFlags_ok _ _ _ _ _ h1 h2]
+    unfold Conforms
+    rw [attrOutcomes_noconflict code flags v o t ap hr h1 h2]
+    exact hbody h1 h2
+
+/-- a length fault answered by the approach the table names, subcode 5 -/
+private theorem conformsTo_lenErr {α} (ap : Spec.Approach) (code : UInt8) (v : Bytes) (e : Err)
+    (exact : α → Prop) (he : errApproach e = some (ap, code, some (attrLenBad code v))) :
+    ConformsTo [.fail ap 5] code (.error e : Except Err α) exact := by
+  simp only [ConformsTo]
+  refine ⟨by simp, ap, attrLenBad code v, he, ?_, ?_⟩
+  · rw [Lemmas.attrLenBad_eq]
+  · rw [Lemmas.attrLenBad_eq]; simp
+
+private theorem conformsTo_ok {α} (code : UInt8) (a : α) (exact : α → Prop) (h : exact a) :
+    ConformsTo [.ok] code (.ok a : Except Err α) exact := by
+  simp only [ConformsTo]
+  exact ⟨by simp, h⟩
+
+private theorem fixed4_conforms (code flags : UInt8) (v : Bytes) (o t : Bool)
+    (hr : Spec.attrRule code = some ⟨code, o, t, .withdraw⟩)
+    (hv : Spec.valueFault code v = if v.length ≠ 4 then some [5] else none) :
+    Conforms code flags v (decodeFixed4 code o t flags v) (fun x => x = v) := by
+  unfold decodeFixed4
+  apply conforms_flags code flags v o t .withdraw hr
+  intro _ _
+  unfold valueOutcomes
+  rw [hv]
+  by_cases h : v.length = 4
+  · simp only [h, ne_eq, not_true_eq_false, if_false]
+    exact conformsTo_ok _ _ _ rfl
+  · simp only [h, ne_eq, not_false_eq_true, if_true, List.map]
+    exact conformsTo_lenErr _ _ _ _ _ rfl
+
+private theorem aspath_err {α} (v : Bytes) (e : Err) (exact : α → Prop)
+    (hsp : Spec.asPathSegs v.length v = none) (he : Lemmas.asPathErr e) :
+    ConformsTo (valueOutcomes .withdraw 2 v) 2 (.error e : Except Err α) exact := by
+  have hv : valueOutcomes .withdraw 2 v = [.fail .withdraw 11, .fail .withdraw 5] := by
+    simp only [valueOutcomes, Spec.valueFault, hsp, Option.isSome_none, Bool.false_eq_true, if_false,
+      List.map]
+  rw [hv]
+  obtain ⟨n, rfl, hc, hsub⟩ := he
+  simp only [ConformsTo]
+  refine ⟨by simp, .withdraw, n, rfl, hc, ?_⟩
+  rcases hsub with h | h <;> simp [h]
+
 theorem origin_exact (flags : UInt8) (v : Bytes) :
     Conforms 1 flags v (decodeOrigin flags v) (fun x => v = [x]) := by
-  sorry
+  unfold decodeOrigin
+  apply conforms_flags 1 flags v false true .withdraw rfl
+  intro _ _
+  match v with
+  | [] => exact conformsTo_lenErr _ _ _ _ _ rfl
+  | _ :: _ :: _ => exact conformsTo_lenErr _ _ _ _ _ rfl
+  | [x] =>
+    simp only [valueOutcomes, Spec.valueFault]
+    by_cases h : x > 2
+    · have h' : x.toNat > 2 := by simpa [UInt8.lt_iff_toNat_lt] using h
+      simp only [h, h', if_true, List.map]
+      simp only [ConformsTo]
+      refine ⟨by simp, .withdraw, _, rfl, rfl, ?_⟩
+      simp [Gen.NOTIF_SUBCODE_INVALID_ORIGIN_ATTR]
+    · have h' : ¬ x.toNat > 2 := by simpa [UInt8.lt_iff_toNat_lt] using h
+      simp only [h, h', if_false]
+      exact conformsTo_ok _ _ _ rfl
 
 /-- AS_PATH: every AS number of every segment, sets and sequences kept apart, in wire order -/
 theorem aspath_exact (flags : UInt8) (v : Bytes) :
@@ -41,19 +159,47 @@ theorem aspath_exact (flags : UInt8) (v : Bytes) :
       ∃ segs, Spec.asPathSegs v.length v = some segs ∧
         p.asSet.map (·.toNat) = (segs.filter (·.1 = 1)).flatMap (·.2) ∧
         p.asSequence.map (·.toNat) = (segs.filter (·.1 = 2)).flatMap (·.2)) := by
-  sorry
+  unfold decodeASPath
+  apply conforms_flags 2 flags v false true .withdraw rfl
+  intro _ _
+  by_cases h0 : v.length = 0
+  · have : v = [] := List.eq_nil_of_length_eq_zero h0
+    subst this
+    exact conformsTo_ok _ _ _ ⟨[], rfl, rfl, rfl⟩
+  · rw [if_neg h0]
+    by_cases h6 : v.length < 6 ∨ v.length % 2 ≠ 0
+    · rw [if_pos h6]
+      have hsp : Spec.asPathSegs v.length v = none := by
+        cases hsp : Spec.asPathSegs v.length v with
+        | none => rfl
+        | some segs => have := Lemmas.asPathSegs_len _ _ _ hsp; omega
+      exact aspath_err v _ _ hsp (Lemmas.asPathErr_len v)
+    · rw [if_neg h6]
+      have := Lemmas.asPathLoop_spec (v.length + 1) v {} v.length (by omega) (by omega)
+      generalize decodeASPathLoop _ _ _ = r at this ⊢
+      cases r with
+      | error e => exact aspath_err v _ _ this.1 this.2
+      | ok p =>
+        simp only at this
+        obtain ⟨segs, hs1, hs2, hs3⟩ := this
+        have hv : valueOutcomes .withdraw 2 v = [.ok] := by
+          simp only [valueOutcomes, Spec.valueFault, hs1, Option.isSome_some, if_true]
+        rw [hv]
+        refine conformsTo_ok _ _ _ ⟨segs, hs1, ?_, ?_⟩
+        · simpa using hs2
+        · simpa using hs3
 
 theorem nexthop_exact (flags : UInt8) (v : Bytes) :
-    Conforms 3 flags v (decodeNextHop flags v) (fun x => x = v) := by
-  sorry
+    Conforms 3 flags v (decodeNextHop flags v) (fun x => x = v) :=
+  fixed4_conforms 3 flags v false true rfl rfl
 
 theorem med_exact (flags : UInt8) (v : Bytes) :
-    Conforms 4 flags v (decodeMED flags v) (fun x => x = v) := by
-  sorry
+    Conforms 4 flags v (decodeMED flags v) (fun x => x = v) :=
+  fixed4_conforms 4 flags v true false rfl rfl
 
 theorem localpref_exact (flags : UInt8) (v : Bytes) :
-    Conforms 5 flags v (decodeLocalPref flags v) (fun x => x = v) := by
-  sorry
+    Conforms 5 flags v (decodeLocalPref flags v) (fun x => x = v) :=
+  fixed4_conforms 5 flags v false true rfl rfl
 
 /-- the RFC table with the ATOMIC_AGGREGATE entry as the code has it (Optional = 1) -/
 def atomicAggOutcomesAsCoded (flags : UInt8) (v : Bytes) : List Spec.AttrOutcome :=
@@ -64,47 +210,132 @@ def atomicAggOutcomesAsCoded (flags : UInt8) (v : Bytes) : List Spec.AttrOutcome
 bit expectation of RFC 4271 §5.1.6) -/
 theorem atomicagg_exact_partial (flags : UInt8) (v : Bytes) :
     ConformsTo (atomicAggOutcomesAsCoded flags v) 6 (decodeAtomicAggregate flags v) (fun x => x = true) := by
-  sorry
+  unfold decodeAtomicAggregate atomicAggOutcomesAsCoded
+  by_cases h : flagOptional flags ≠ true ∨ flagTransitive flags ≠ true
+  · rw [Lemmas.validateFlags_conflict _ _ _ _ _ h]
+    have h' : flags.toNat / 128 % 2 ≠ 1 ∨ flags.toNat / 64 % 2 ≠ 1 := by
+      simpa [flagOptional, flagTransitive] using h
+    rw [if_pos h']
+    simp only [ConformsTo]
+    refine ⟨by simp, .withdraw, ⟨3, 4, Spec.attrErrData 6 v⟩, rfl, rfl, ?_⟩
+    simp
+  · have h' : ¬ (flags.toNat / 128 % 2 ≠ 1 ∨ flags.toNat / 64 % 2 ≠ 1) := by
+      simpa [flagOptional, flagTransitive] using h
+    rw [if_neg h']
+    have h1 : flagOptional flags = true := by
+      by_cases h1 : flagOptional flags = true
+      · exact h1
+      · exact absurd (Or.inl h1) h
+    have h2 : flagTransitive flags = true := by
+      by_cases h2 : flagTransitive flags = true
+      · exact h2
+      · exact absurd (Or.inr h2) h
+    rw [Lemmas.validateFlags_ok _ _ _ _ _ h1 h2]
+    by_cases hl : v.length = 0
+    · simp only [hl, ne_eq, not_true_eq_false, if_false]
+      exact conformsTo_ok _ _ _ rfl
+    · simp only [hl, ne_eq, not_false_eq_true, if_true]
+      exact conformsTo_lenErr _ _ _ _ _ rfl
 
 /-- the full statement fails on the pinned tree: flags `0x40` with an empty value is a
 well-formed ATOMIC_AGGREGATE and is rejected (replay: `attr.atomicagg 64 -`) -/
 theorem atomicagg_not_exact :
     ¬ Conforms 6 0x40 [] (decodeAtomicAggregate 0x40 []) (fun x => x = true) := by
-  sorry
+  intro h
+  have h1 : Spec.AttrOutcome.ok ∉ Spec.attrOutcomes 6 0x40 [] := h.1
+  exact h1 (by decide)
 
 theorem aggregator_exact (flags : UInt8) (v : Bytes) :
     Conforms 7 flags v (decodeAggregator flags v) (fun x => be32Bytes x.1 ++ x.2 = v ∧ x.2.length = 4) := by
-  sorry
+  unfold decodeAggregator
+  apply conforms_flags 7 flags v true true .discard rfl
+  intro _ _
+  by_cases hl : v.length = 8
+  · match v, hl with
+    | [a, b1, c, d, i1, i2, i3, i4], _ =>
+      refine conformsTo_ok _ _ _ ⟨?_, rfl⟩
+      simp only [Lemmas.be32Bytes_be32]
+      rfl
+  · have hv : valueOutcomes .discard 7 v = [.fail .discard 5] := by
+      simp only [valueOutcomes, Spec.valueFault, hl, ne_eq, not_false_eq_true, if_true, List.map]
+    rw [hv]
+    split
+    · exact absurd rfl hl
+    · exact conformsTo_lenErr _ _ _ _ _ rfl
 
 theorem communities_exact (flags : UInt8) (v : Bytes) :
     Conforms 8 flags v (decodeCommunities flags v) (fun x => (x.map be32Bytes).flatten = v) := by
-  sorry
+  unfold decodeCommunities
+  apply conforms_flags 8 flags v true true .withdraw rfl
+  intro _ _
+  by_cases hl : v.length < 4 ∨ v.length % 4 ≠ 0
+  · have hl' : v.length = 0 ∨ v.length % 4 ≠ 0 := by omega
+    have hv : valueOutcomes .withdraw 8 v = [.fail .withdraw 5] := by
+      simp only [valueOutcomes, Spec.valueFault, hl', if_true, List.map]
+    rw [hv, if_pos hl]
+    exact conformsTo_lenErr _ _ _ _ _ rfl
+  · have hl' : ¬ (v.length = 0 ∨ v.length % 4 ≠ 0) := by omega
+    have hv : valueOutcomes .withdraw 8 v = [.ok] := by
+      simp only [valueOutcomes, Spec.valueFault, hl', if_false]
+    rw [hv, if_neg hl]
+    apply conformsTo_ok
+    have hne : v ≠ [] := by intro h; subst h; simp at hl
+    obtain ⟨l, h1, h2⟩ := Lemmas.u32set_go_rt v (by omega)
+    rw [Lemmas.u32set_eq_go v hne, h1]
+    exact h2
 
 theorem originatorid_exact (flags : UInt8) (v : Bytes) :
-    Conforms 9 flags v (decodeOriginatorID flags v) (fun x => x = v) := by
-  sorry
+    Conforms 9 flags v (decodeOriginatorID flags v) (fun x => x = v) :=
+  fixed4_conforms 9 flags v true false rfl rfl
 
 theorem clusterlist_exact (flags : UInt8) (v : Bytes) :
     Conforms 10 flags v (decodeClusterList flags v) (fun x => x.flatten = v ∧ ∀ a ∈ x, a.length = 4) := by
-  sorry
+  unfold decodeClusterList
+  apply conforms_flags 10 flags v true false .withdraw rfl
+  intro _ _
+  by_cases hl : v.length < 4 ∨ v.length % 4 ≠ 0
+  · have hl' : v.length = 0 ∨ v.length % 4 ≠ 0 := by omega
+    have hv : valueOutcomes .withdraw 10 v = [.fail .withdraw 5] := by
+      simp only [valueOutcomes, Spec.valueFault, hl', if_true, List.map]
+    rw [hv, if_pos hl]
+    exact conformsTo_lenErr _ _ _ _ _ rfl
+  · have hl' : ¬ (v.length = 0 ∨ v.length % 4 ≠ 0) := by omega
+    have hv : valueOutcomes .withdraw 10 v = [.ok] := by
+      simp only [valueOutcomes, Spec.valueFault, hl', if_false]
+    rw [hv, if_neg hl]
+    exact conformsTo_ok _ _ _ (Lemmas.chunks4_rt v (by omega))
 
 theorem largecomm_exact (flags : UInt8) (v : Bytes) :
     Conforms 32 flags v (decodeLargeCommunities flags v)
       (fun x => (x.map fun (a, b, c) => be32Bytes a ++ be32Bytes b ++ be32Bytes c).flatten = v) := by
-  sorry
+  unfold decodeLargeCommunities
+  apply conforms_flags 32 flags v true true .withdraw rfl
+  intro _ _
+  by_cases hl : v.length < 12 ∨ v.length % 12 ≠ 0
+  · have hl' : v.length = 0 ∨ v.length % 12 ≠ 0 := by omega
+    have hv : valueOutcomes .withdraw 32 v = [.fail .withdraw 5] := by
+      simp only [valueOutcomes, Spec.valueFault, hl', if_true, List.map]
+    rw [hv, if_pos hl]
+    exact conformsTo_lenErr _ _ _ _ _ rfl
+  · have hl' : ¬ (v.length = 0 ∨ v.length % 12 ≠ 0) := by omega
+    have hv : valueOutcomes .withdraw 32 v = [.ok] := by
+      simp only [valueOutcomes, Spec.valueFault, hl', if_false]
+    rw [hv, if_neg hl]
+    exact conformsTo_ok _ _ _ (Lemmas.largeComms_rt (v.length / 12) v (by omega))
 
 /-- flag conflicts are treat-as-withdraw with subcode 4 for every typed decoder, and carry the
 attribute (type, length — two octets above 255 —, value) as data -/
 theorem flag_conflict (flags code : UInt8) (v : Bytes) (o t : Bool)
     (h : flagOptional flags ≠ o ∨ flagTransitive flags ≠ t) :
-    validateFlags flags code v o t = some (.taw code (some ⟨3, 4, Spec.attrErrData code v⟩)) := by
-  sorry
+    validateFlags flags code v o t = some (.taw code (some ⟨3, 4, Spec.attrErrData code v⟩)) :=
+  Lemmas.validateFlags_conflict flags code v o t h
 
 /-- the four accessors are bits 7..4 of the flags octet -/
 theorem flag_accessors (f : UInt8) :
     flagOptional f = f.toNat.testBit 7 ∧ flagTransitive f = f.toNat.testBit 6 ∧
     flagPartial f = f.toNat.testBit 5 ∧ flagExtendedLen f = f.toNat.testBit 4 := by
-  sorry
+  simp only [flagOptional, flagTransitive, flagPartial, flagExtendedLen, Lemmas.testBit_eq]
+  simp
 
 example : Spec.attrOutcomes 2 0x40 [2, 1, 0, 0, 253, 234] = [.ok] := by decide
 example : Spec.attrOutcomes 1 0x40 [3] = [.fail .withdraw 6] := by decide
